@@ -425,7 +425,7 @@ HEADER = ('From Coq Require Import QArith ZArith String List.\n'
 def correspondence(ctx):
     rng = random.Random(ctx.seed)
     quick = ctx.tier == 'quick'
-    groups = gen_groups(rng, 60 if quick else 1500)
+    groups = gen_groups(rng, 60 if quick else 1000)
     res = ctx.run_impl('c08_impl.py', {'groups': groups})
     terms, descs = [], []
     mutated = 0
